@@ -64,6 +64,8 @@ type Interp struct {
 	goq      []func()
 	clock    *smt.Term
 	errTypes map[string]*types.Named
+	curFrame *frame
+	curPos   token.Pos
 }
 
 type Observation struct {
@@ -110,6 +112,12 @@ func (in *Interp) allocGlobals(pkg *ssa.Package) {
 		if g, ok := m.(*ssa.Global); ok {
 			if _, done := in.globals[g]; !done {
 				cell := in.zero(deref(g.Type()))
+				// sentinel errors of dependencies without source (sql.ErrNoRows, io.EOF ...) get distinct identities
+				if pkg.Func("init") == nil || pkg.Func("init").Blocks == nil {
+					if types.Identical(deref(g.Type()), types.Universe.Lookup("error").Type()) {
+						cell = in.mkError(pkg.Pkg.Path() + "." + g.Name())
+					}
+				}
 				in.globals[g] = &cell
 			}
 		}
@@ -194,6 +202,10 @@ func (in *Interp) callSSA(caller *frame, pos token.Pos, fn *ssa.Function, args [
 			return r
 		}
 	}
+	if fn.Name() == "init" && fn.Signature.Recv() == nil && caller != nil && caller.fn != nil && caller.fn.Name() == "init" && caller.fn.Pkg != fn.Pkg {
+		// package initialisation is lazy: a dependency is initialised when one of its globals is first touched
+		return nil
+	}
 	if fn.Blocks == nil {
 		if fn.Name() == "init" && fn.Signature.Recv() == nil {
 			return nil
@@ -275,6 +287,10 @@ func (in *Interp) runFrame(fr *frame) {
 		nonPhis := fr.executePhis()
 		for _, instr := range nonPhis {
 			in.steps++
+			in.curFrame = fr
+			if p := instr.Pos(); p != token.NoPos {
+				in.curPos = p
+			}
 			if in.steps > in.P.MaxSteps {
 				panic(unsupported{"step budget exhausted"})
 			}
